@@ -41,6 +41,7 @@ macro "wp_forget" : tactic => `(tactic| first
   | (show Post (getRoles _ _) _ _; apply Post.intro; intro _ _)
   | (show Post (saveRoles _ _ _) _ _; apply Post.intro; intro _ _)
   | (show Post (checkAllowed _ _ _) _ _; apply Post.intro; intro _ _)
+  | (show Post (checkAllowedIf _ _ _ _) _ _; apply Post.intro; intro _ _)
   | (show Post (getLatestNonce _ _) _ _; apply Post.intro; intro _ _)
   | (show Post (saveLatestNonce _ _ _) _ _; apply Post.intro; intro _ _)
   | (show Post (addCreateRole _ _) _ _; apply Post.intro; intro _ _)
